@@ -506,6 +506,22 @@ impl Walk {
 /// `.iter_mut()`, `.for_each(|b| b.clear())`, `.for_each(Bucket::clear)`)
 fn arena_clear_shape(f: &syn::ImplItemFn) -> String {
     let body: Vec<&Stmt> = f.block.stmts.iter().filter(|s| !matches!(s, Stmt::Macro(m) if squash(&toks(&m.mac.path)).starts_with("debug_assert"))).collect();
+    if body.len() == 2 {
+        // `let mut it = self.buckets.iter_mut(); while let Some(b) = it.next() { b.clear(); }`
+        if let (Stmt::Local(l), Stmt::Expr(Expr::While(w), _)) = (body[0], body[1]) {
+            if let (syn::Pat::Ident(pi), Some(init)) = (&l.pat, &l.init) {
+                let it = pi.ident.to_string();
+                let src_ok = matches!(squash(&toks(&*init.expr)).as_str(), "self.buckets.iter_mut()" | "(&mutself.buckets).into_iter()");
+                let c = squash(&toks(&*w.cond));
+                if let Some(v) = c.strip_prefix("letSome(").and_then(|r| r.strip_suffix(&format!(")={it}.next()"))) {
+                    let b = squash(&toks(&w.body));
+                    if src_ok && (b == format!("{{{v}.clear();}}") || b == format!("{{{v}.clear()}}") || b == format!("{{Bucket::clear({v});}}")) {
+                        return ".everyBlock".into();
+                    }
+                }
+            }
+        }
+    }
     if body.len() != 1 {
         return format!("(.other {})", lean::s(&squash(&toks(&f.block))));
     }
